@@ -525,7 +525,17 @@ class DirectSolver(LinearSolver):
 
         # matrix-vector-product generated jacobians are scaled.
         else:
-            x_vec[:] = sol_array = scipy.linalg.lu_solve(self._lup, b_vec, trans=trans_lu)
+            if mode == 'rev' and (d_outputs._scaling is not None or
+                                  d_residuals._scaling is not None):
+                # The matrix was generated in fwd mode from scaled vectors, M = Dr^-1 A Do, but
+                # the scaled reverse system is (Do^-1 A^T Dr) x = b, i.e. M^T (Dr^2 x) = Do^2 b.
+                oscale = 1.0 if d_outputs._scaling is None else d_outputs._scaling[0]
+                rscale = 1.0 if d_residuals._scaling is None else d_residuals._scaling[0]
+                sol_array = scipy.linalg.lu_solve(self._lup, b_vec * oscale**2, trans=trans_lu)
+                sol_array = sol_array / rscale**2
+                x_vec[:] = sol_array
+            else:
+                x_vec[:] = sol_array = scipy.linalg.lu_solve(self._lup, b_vec, trans=trans_lu)
 
         if not system.under_complex_step and self._lin_rhs_checker is not None and mode == 'rev':
             self._lin_rhs_checker.add_solution(b_vec, sol_array, system, copy=True)
